@@ -114,6 +114,7 @@ type Opts struct {
 	Prefix        []int
 	Fuel          int64
 	ClockNanos    int64 // 0 = default instant
+	GCEvery       int64 // > 0: a complete garbage collection at every GCEvery-th fuel point
 	Args          []string
 	Files         map[string]string
 	FileErrs      map[string]string
@@ -132,6 +133,7 @@ type Outcome struct {
 	StdinPos   int
 	NowCalls   int
 	FuelSpent  int64
+	GCRuns     int64
 	HadError   bool
 	HadRuntime bool
 }
@@ -166,6 +168,7 @@ func prep(o Opts) {
 		fuel = DefaultFuel
 	}
 	verifrt.FuelLeft = fuel
+	verifrt.GCEvery = o.GCEvery
 	if o.ClockNanos != 0 {
 		verifrt.NowValue = timeUnix(o.ClockNanos)
 	} else {
@@ -191,6 +194,7 @@ func finish(out *Outcome, fuel int64) {
 		fuel = DefaultFuel
 	}
 	out.FuelSpent = fuel - verifrt.FuelLeft
+	out.GCRuns = verifrt.GCRuns
 	out.HadError = utils.HadError
 	out.HadRuntime = utils.HadRuntimeError
 }
